@@ -2,7 +2,9 @@ package zsim
 
 import (
 	"fmt"
+	"os"
 	"path/filepath"
+	"runtime"
 	"sort"
 	"strings"
 	"time"
@@ -63,6 +65,16 @@ func genC10(seed uint64, tier string) *Plan {
 		p.Cfg.Extra = map[string]int64{"qlat": int64(PickOne(r, []time.Duration{2 * time.Millisecond, 50 * time.Millisecond, 300 * time.Millisecond}))}
 	}
 	p.Ops = append(p.Ops, Op{K: "check", Strs: genBattery(r, p, u, o, r.Range(3, 8))})
+	if r.Bool(0.3) || os.Getenv("ZSIM_FORCE_REAL") != "" {
+		// world CR: whole servers over the simulated connection network (the
+		// answer latency then is that of the real RPC stack)
+		if p.Cfg.Extra == nil {
+			p.Cfg.Extra = map[string]int64{}
+		}
+		delete(p.Cfg.Extra, "qlat")
+		p.Cfg.Extra["real"] = 1
+		p.World = "CR"
+	}
 	return p
 }
 
@@ -183,7 +195,7 @@ func compareClusterQueries(e *Env, c *Cluster, d *Node, sqls []string, sig strin
 			if !l.Up {
 				continue
 			}
-			if c.p.Cfg.Extra["qlat"] > 0 {
+			if c.p.Cfg.Extra["qlat"] > 0 || c.Real {
 				// followers plan the query text when it reaches them: with
 				// latency the comparison is only defined while no period
 				// boundary passes, so start just after one (resolutions divide
@@ -191,7 +203,18 @@ func compareClusterQueries(e *Env, c *Cluster, d *Node, sqls []string, sig strin
 				alignClock(e, int64(time.Millisecond), int64(time.Minute))
 			}
 			pl, pd := l.N.Prepare(sql, true), d.Prepare(sql, true)
+			t0 := time.Now()
+			if f := os.Getenv("ZSIM_DEBUG_STACKS"); f != "" {
+				go func() {
+					time.Sleep(500 * time.Millisecond)
+					buf := make([]byte, 8<<20)
+					os.WriteFile(f, buf[:runtime.Stack(buf, true)], 0644)
+				}()
+			}
 			ql, qd := pl.Run(QOpts{}), pd.Run(QOpts{})
+			if os.Getenv("ZSIM_DEBUG_TIMING") != "" {
+				fmt.Fprintf(os.Stderr, "TIMING %q started %v took %v (simulated)\n", sql, t0.Format("15:04:05.000"), time.Since(t0))
+			}
 			if ql.Panicked && !qd.Panicked && strings.Contains(sql, "CROSSTAB") && strings.Contains(sql, "GROUP BY *") {
 				if e.Known("C10-crosstab-with-wildcard-panics-leader") {
 					continue
@@ -272,6 +295,20 @@ func execC10(e *Env, p *Plan) error {
 			clusterSettle(e, c)
 			if v := checkRouting(e, c, d, p); v != nil {
 				return v
+			}
+			if c.Real {
+				// a delayed link delays every connection between the two nodes,
+				// also the answers to queries; the comparison of clock-relative
+				// queries needs them to be fast (see alignClock below)
+				for _, l := range c.Leaders {
+					for _, f := range c.Followers {
+						c.SetDelay(l.Name, f.Name, 0)
+					}
+				}
+				// followers connect their query feeds on their own schedule
+				if v := waitForQueryFeeds(e, c, p, time.Now().Add(5*time.Minute)); v != nil {
+					return v
+				}
 			}
 			if v := compareClusterQueries(e, c, d, op.Strs, "cluster-differs"); v != nil {
 				return v
